@@ -27,8 +27,9 @@ The rejection oracles compare WHICH rejection comes first in visit order ("P" pa
 import os, sys, json, random, signal, subprocess, argparse, itertools, warnings
 
 os.environ.setdefault("JAQALPAQ_RUN_EMULATOR", "1")
-if "/verif" not in sys.path:
-    sys.path.insert(0, "/verif")
+_ROOT = __import__("os").path.dirname(__import__("os").path.dirname(__import__("os").path.dirname(__import__("os").path.abspath(__file__))))
+if _ROOT not in sys.path:
+    sys.path.insert(0, _ROOT)
 
 DEFAULT_DRIVER = "/verif/lean/.lake/build/bin/jaqal-model"
 PAR_MSG = "Parallel branches of block acting on the same qubit."
